@@ -295,8 +295,8 @@ func run(spec *PropSpec, st *interp.Stage, tier string, seed int, only string, w
 	if !noReplay && exit == 0 {
 		seenH := map[string]bool{}
 		for _, j := range jobs {
-			if j.Mode != "bmc" || seenH[j.Harness] || len(seenH) >= 2 {
-				continue
+			if j.Mode != "bmc" || seenH[j.Harness] || len(seenH) >= 2 || j.Params["generator"] == 1 {
+				continue // (generators never reach quiescence natively: no witness run)
 			}
 			seenH[j.Harness] = true
 			dir := filepath.Join(st.Verif, "replays", id, "witness-"+j.Harness)
